@@ -566,7 +566,15 @@ func CheckC18(p *Pkg, e *Env, r *res.Result) {
 					docClass = ":valid-document"
 					bodyMode := 0
 					if mode == "body" {
-						bodyMode = rapid.SampledFrom([]int{0, 1, 1, 2}).Draw(t, "body_mode")
+						bodyMode = rapid.SampledFrom([]int{0, 1, 1, 2, 3}).Draw(t, "body_mode")
+					}
+					if bodyMode == 3 {
+						// one integer just outside (or at the edge of) the int32 / int64 ranges:
+						// accepted or refused, but alike by both forms
+						if st, ok := refmodel.StretchNumber(t, doc); ok {
+							doc = st
+							docClass = ":document-with-stretched-integer"
+						}
 					}
 					if bodyMode == 1 {
 						if sites := refmodel.FaultSites(p.Doc, mt.Schema, doc); len(sites) > 0 {
@@ -605,6 +613,18 @@ func CheckC18(p *Pkg, e *Env, r *res.Result) {
 			ra.URL.Path, rb.URL.Path = path, path
 			oa, ob := serveOutcome(ia, ra), serveOutcome(ib, rb)
 			rep := map[string]any{"request.txt": op.Method + " " + target + "\n" + fmt.Sprint(hdr) + "\n" + string(body)}
+			// a path value spelled like a constant segment makes another operation run: the
+			// failure is classified by the operation that ran, and the document was not
+			// drawn for its body schema
+			if oa.Dispatch && oa.Template != "" && oa.Template != op.Template {
+				if ran, ranB := p.OpFor(op.Method, oa.Template), q.OpFor(op.Method, oa.Template); ran != nil && ranB != nil {
+					op, opB = ran, ranB
+					if docClass != "" && docClass != ":malformed-json" {
+						docClass = ":document-for-another-operation"
+					}
+					r.Label("request:ran-another-operation")
+				}
+			}
 			switch {
 			case oa.Panic != "" || ob.Panic != "":
 				fail("panic", "panic on one side: "+firstLine(oa.Panic+ob.Panic), rep)
@@ -666,8 +686,8 @@ func CheckC18(p *Pkg, e *Env, r *res.Result) {
 			path := p.BasePath + concretePath(op.Template)
 			ia.Reset()
 			ib.Reset()
-			reca, pa := ia.Serve(httptest.NewRequest(op.Method, "http://h.example"+path, nil))
-			recb, pb := ib.Serve(httptest.NewRequest(op.Method, "http://h.example"+path, nil))
+			reca, pa := ia.Serve(httptest.NewRequest(op.Method, "http://h.example"+escapeForURL(path), nil))
+			recb, pb := ib.Serve(httptest.NewRequest(op.Method, "http://h.example"+escapeForURL(path), nil))
 			ia.Respond, ib.Respond = nil, nil
 			rep := map[string]any{"response.txt": fmt.Sprintf("%+v", va.Interface())}
 			switch {
